@@ -570,6 +570,9 @@ def is_valid_MatchValue_value(ast: AST, consts: tuple[type[constant]] = (str, by
 
         ast = ast.operand
 
+        if ast.__class__ is Constant:  # only numbers can be negated in a pattern
+            return ast.value.__class__ in (int, float, complex)  # because bool is int
+
     if ast.__class__ is Constant:
         return ast.value.__class__ in consts  # because bool is int
 
